@@ -38,7 +38,13 @@ if [ -f "$VERIF/checks/$id/overlay.conf" ]; then
   OVFLAG=(-overlay "$B/ov-$id/overlay.json")
 fi
 
-if ! "$GO" build "${MODFLAG[@]}" "${OVFLAG[@]}" -o "$B/$id" "./checks/$id" 2> "$B/$id.buildlog"; then
+if ! "$GO" build "${MODFLAG[@]}" "${OVFLAG[@]}" -o "$B/$id" "./checks/$id" 2> "$B/$id.buildlog" && [ -f "$VERIF/checks/$id/overlay.fallback.conf" ]; then
+  # the overlay-only export file does not compile against this tree: degrade to black-box mode
+  echo "[$ID] note: overlay export does not build against this tree; falling back to black-box mode" >&2
+  "$VERIF/.build/vgen" -repo "$REPO" -out "$B/ov-$id" -conf "$VERIF/checks/$id/overlay.fallback.conf" -shim "$VERIF/shim" || exit 2
+  TAGS=(-tags blackbox)
+fi
+if ! "$GO" build "${MODFLAG[@]}" "${OVFLAG[@]}" "${TAGS[@]}" -o "$B/$id" "./checks/$id" 2> "$B/$id.buildlog"; then
   cat "$B/$id.buildlog" >&2
   echo "[$ID] BUILD FAILED: the repository tree (or the harness against it) does not compile; no verdict" >&2
   exit 2
